@@ -212,6 +212,15 @@ class TreeBuilder(ET.TreeBuilder):
                 raise ParseError(f"Tail text '{text}' after <{tag}>")
             logger.debug(f"Popping tag '{tag[1:]}'")
             self.end(tag[1:])
+        elif tag.endswith("/") and tag.rstrip("/ "):
+            # XML empty-element tag, e.g. <MEMO/> - same as <MEMO></MEMO>
+            if text or closetag:
+                what = f"Text '{text}'" if text else f"End tag </{closetag}>"
+                raise ParseError(f"{what} after empty-element tag <{tag}>")
+            tag = tag.rstrip("/ ")
+            logger.debug(f"Pushing and popping empty tag '{tag}'")
+            self.start(tag, {})
+            self.end(tag)
         else:
             self._start(tag, text, closetag)
 
